@@ -240,7 +240,7 @@ func laws(sel int, in, got []int64, law func(lsel int, lin []int64, sig string))
 			w.Obs(0, a1)
 			w.Obs(1, a2)
 			law(202, w.T, "")
-			law(207, w.T, "C06-idem-outofsync-double-count")
+			law(207, w.T, "")
 		}
 		// crash / restart: the last faulty request is followed by a restart (full resync) and a retry;
 		// the twin history runs the same request without faults
